@@ -298,4 +298,91 @@ def specNilW (admitsNil : Bool) (h : List Op) (ws : List W) (obs : R × List Cal
 def specValW (valid : Bool) (ws : List W) : R × List Call :=
   extend (if valid then .ok .inp else .err .checkError) 1 ws
 
+/-! ### The parse context as explicit state: histories of *parses* through one `*core.ParseContext`
+
+  Every entry point takes `ctx ...*core.ParseContext`; `getOrCreateContext` (core/parsing.go:32) uses the caller's
+  context when one is given and a new `&ParseContext{}` otherwise, and containers hand their one context to every
+  child (`schema.ParseAny(arr[i], ctx)`: types/tuple.go `validateTupleForEngine`, types/object.go `validateField`,
+  types/array.go `validateElement`). So a context lives through a *sequence* of nil parses — of different schemas —
+  and whatever a parse leaves on it is seen by the next. The statement of C03 makes the nil outcome a function of
+  the modifier history and the input; it therefore must not depend on what the context has been through. -/
+
+/-- `core.ParseContext` (core/parsing.go:10-14). -/
+structure Ctx where
+  errMap : Bool := false             -- `Error != nil` (custom message generator)
+  reportInput : Bool := false
+  isPrefaultContext : Bool := false  -- exported, documented "whether parsing a prefault value"
+  deriving DecidableEq, Repr
+
+/-- What a nil parse needs to know of a schema: its type's nil admission and its modifier internals. -/
+structure Sch where
+  admitsNil : Bool
+  i : I
+  deriving DecidableEq, Repr
+
+/-- What `processModifiersCore` returns (`(value, handled, err)`, modifiers.go:42-91). -/
+inductive PM where
+  | notHandled                              -- `nil, false, nil`: a non-nil input
+  | prefault (fromFunc : Bool) (valid : Bool)  -- `prefault, false, nil`: the caller parses it as the new input
+  | handled (r : R)                         -- `…, true, …`
+  deriving DecidableEq, Repr
+
+/-- `processModifiersCore(input, internals, expectedType, ctx)` with the context threaded explicitly. The code
+    as it is hands `ctx` on to `ApplyChecks`, `CreateNonOptionalError`, `CreateInvalidTypeError` (which read
+    `ctx.Error` / `ctx.ReportInput` for the message and the attached input, never for the verdict or the code) and
+    writes no field of it; `IsPrefaultContext` is never read. Branch order as in the source. -/
+def processModifiersCtx (c : Ctx) (s : Sch) (inp : In) : Ctx × PM :=
+  if !inp.isNil then (c, .notHandled) else
+  match s.i.dv, s.i.df with
+  | some valid, _ => (c, .handled (if s.i.hasOverwrite && !valid then .err .checkError else .ok (.src (.dflt false))))
+  | none, some valid => (c, .handled (if s.i.hasOverwrite && !valid then .err .checkError else .ok (.src (.dflt true))))
+  | none, none =>
+    match s.i.pv, s.i.pf with
+    | some valid, _ => (c, .prefault false valid)
+    | none, some valid => (c, .prefault true valid)
+    | none, none =>
+      if s.i.nonOptional then (c, .handled (.err .nonOptional))
+      else if s.i.optional || s.i.nilable then
+        (c, .handled (if s.i.refines.all id then .ok (.src .nil) else .err .refineError))
+      else if s.admitsNil then (c, .handled (.ok (.src .nil)))
+      else (c, .handled (.err .typeError))
+
+/-- One parse through a context — `ParsePrimitive` / `ParseComplex` (parser.go:23-72, 109-145): `pc :=
+    getOrCreateContext(ctx...)`, `processModifiers(…, pc)`, a prefault becomes the new input of
+    `parsePrimitiveValue(…, pc)` under the same context. Returns the context as the parse leaves it. -/
+def ctxStep (c : Ctx) (s : Sch) (inp : In) : Ctx × R :=
+  match processModifiersCtx c s inp with
+  | (c', .handled r) => (c', r)
+  | (c', .prefault k valid) => (c', if valid then .ok (.src (.prefaultOk k)) else .err .checkError)
+  | (c', .notHandled) => (c', match inp with | .invalid => .err .checkError | _ => .ok .inp)
+
+/-- A sequence of parses through one context (a caller reusing its context; the children of one container). -/
+def runSeq (stp : Ctx → Sch → In → Ctx × R) (c : Ctx) : List (Sch × In) → Ctx × List R
+  | [] => (c, [])
+  | (s, inp) :: ps =>
+    let (c1, r) := stp c s inp
+    let (c2, rs) := runSeq stp c1 ps
+    (c2, r :: rs)
+
+/-- A ctxStep function of the kind C03 forbids, kept as a foil for `c03_ctx_history` (it is NOT the code): the
+    prefault is parsed inside the modifier pass under a flag on the context that is restored only when that parse
+    succeeds, and a set flag suppresses prefault resolution. -/
+def stepLeaky (c : Ctx) (s : Sch) (inp : In) : Ctx × R :=
+  if !inp.isNil then (c, match inp with | .invalid => .err .checkError | _ => .ok .inp) else
+  let noPre : Sch := { s with i := { s.i with pv := none, pf := none } }
+  if c.isPrefaultContext then ctxStep c noPre inp else
+  match (ctxStep c s inp).2, s.i.dv, s.i.df, s.i.pv, s.i.pf with
+  | .err .checkError, none, none, some _, _ => ({ c with isPrefaultContext := true }, .err .checkError)
+  | .err .checkError, none, none, none, some _ => ({ c with isPrefaultContext := true }, .err .checkError)
+  | r, _, _, _, _ => (c, r)
+
+/-- The documented outcome of one parse of a sequence, from that parse's own history and input alone. -/
+def specStep (admitsNil : Bool) (h : List Op) (inp : In) (r : R) : Bool :=
+  match inp, r with
+  | .valid, .ok .inp => true
+  | .invalid, .err .checkError => true
+  | .nil, .ok (.src o) => (match o with | .dflt _ | .prefaultOk _ | .nil => specNil admitsNil h o | _ => false)
+  | .nil, .err o => (match o with | .dflt _ | .prefaultOk _ | .nil => false | _ => specNil admitsNil h o)
+  | _, _ => false
+
 end Gozod.Mods
